@@ -90,6 +90,20 @@ def build_inputs(tier):
         o, c = r.choice([("$(", ")"), ("$[", "]"), ("!(", ")"), ("![", "]")])
         words = [r.choice(["echo", "ls", "timeit"]) + r.choice(["", "!", "! "])] + [group(0) if r.random() < 0.7 else r.choice(["a", "-l", "x.y"]) for _ in range(r.randint(1, 3))]
         cases.append(("subproc-groups", r.choice(["", "v = "]) + o + " ".join(words) + c + "\n", "exec"))
+    # implicit concatenations that mix bytes, text and f-strings in every order (each must end in a tree or a SyntaxError), and
+    # call macros with stray closers / no closer at the end of the input (the raw scanner must not loop)
+    import itertools as _it
+
+    q3 = "'" * 3
+    pieces = ["b'x'", "b''", "rb'k'", "'w'", "''", "f'y'", "f'{z}'", "f''", "f'a{z}b'", "u'v'", "p'q'", "pf'{z}'", q3 + "m\nn" + q3, "bR" + q3 + "o\np" + q3]
+    for n in (2, 3):
+        combos = list(_it.permutations(pieces, n)) if n == 2 else [tuple(r.sample(pieces, 3)) for _ in range(150 * N)]
+        for ps in combos:
+            if any(p.lstrip("rRuUpP").startswith(("b", "B")) for p in ps):
+                cases.append(("string-mix", "x = (" + " ".join(ps) + ")\n", "exec"))
+    for args in ["a, b]", "a, b}", "1, 2, {3: 4}]", "a, (b]", "a]", "a, b", "a, [b)", "a, b])", "a, b]\ny = 1", "a,", "a, 'x", "a, b}\n\n"]:
+        for pre in ["f!(", "x = g!(", "h!(u)!("]:
+            cases.append(("macro-stray-closer", pre + args + ("" if args.endswith("\n") else r.choice(["", "\n"])), "exec"))
     for rc in corpus.regress("C03"):
         cases.insert(0, ("regress", rc["src"], rc.get("mode", "exec")))
     seen = set()
